@@ -722,7 +722,8 @@ def handle (st : State) (cmd : String) (inp obsToks : List String) : State × St
               -- C04 predicates on the observed rasters
               let p1 : Option String := (List.zip suitIdx genModel).findSome? fun (k, gm) =>
                 let cell := pre[k]!
-                if cell.i ≤ 0 && dispO[k]! != 0 then some s!"PROPFAIL C04 dispersers_without_infection cell={k} disp={dispO[k]!}"
+                if dispO[k]! < 0 || estO[k]! < 0 then some s!"PROPFAIL C02 nonneg dispersers cell={k} disp={dispO[k]!} established={estO[k]!}"
+                else if cell.i ≤ 0 && dispO[k]! != 0 then some s!"PROPFAIL C04 dispersers_without_infection cell={k} disp={dispO[k]!}"
                 else if det && soilPct.isNone && dispO[k]! != gm then some s!"PROPFAIL C04 deterministic_count cell={k} disp={dispO[k]!} expected={gm}"
                 else if det && soilPct.isSome && gm > 0 && dispO[k]! != gm - lround (soilPct.get! * gm) then
                   some s!"PROPFAIL C04 soil_split cell={k} disp={dispO[k]!} generated={gm}"
